@@ -1,5 +1,12 @@
 import ExprModel.Drv.Arith
+import ExprModel.Drv.Code
+import ExprModel.Drv.Lex
+import ExprModel.Drv.Parse
+import ExprModel.Drv.Source
+import ExprModel.Drv.Spec
+import ExprModel.Drv.SrcDefects
 import ExprModel.Drv.Types
+import ExprModel.Drv.Walk
 /-
 The model driver: one request per line on stdin (an S-expression `(tag arg…)`), one response per line
 on stdout.  Core-only (no Mathlib, no proof modules), so it links as a `lean_exe` and keeps building
@@ -8,8 +15,15 @@ when a proof breaks.  Each `ExprModel/Drv/*.lean` exports a handler table; add y
 open ExprModel
 
 def handlers : List (String × (List Sexp → Sexp)) :=
-  Drv.arithHandlers
-  ++ Drv.typesHandlers
+  Drv.arithHandlers ++
+  Drv.parseHandlers ++
+  Drv.codeHandlers ++
+  Drv.specHandlers ++
+  Drv.sourceHandlers ++
+  Drv.lexHandlers ++
+  Drv.walkHandlers ++
+  Drv.typesHandlers ++
+  Drv.srcDefectsHandlers
 
 def dispatch (req : Sexp) : Sexp :=
   match req with
